@@ -58,6 +58,10 @@ impl<F> Allocator<F> {
         self.sectors.sector_len()
     }
 
+    pub fn num_fat_entries(&self) -> usize {
+        self.fat.len()
+    }
+
     pub fn next(&self, sector_id: u32) -> io::Result<u32> {
         let index = sector_id as usize;
         if index >= self.fat.len() {
@@ -220,11 +224,18 @@ impl<F: Write + Seek> Allocator<F> {
     ) -> io::Result<u32> {
         debug_assert_ne!(start_sector_id, consts::END_OF_CHAIN);
         let mut last_sector_id = start_sector_id;
+        // The FAT of a damaged file (or one left inconsistent by an earlier
+        // I/O error) can contain dangling or cyclic chains.
+        let mut remaining_steps = self.fat.len();
         loop {
-            let next = self.fat[last_sector_id as usize];
+            let next = self.next(last_sector_id)?;
             if next == consts::END_OF_CHAIN {
                 break;
             }
+            if remaining_steps == 0 {
+                invalid_data!("Chain contains a cycle");
+            }
+            remaining_steps -= 1;
             last_sector_id = next;
         }
         let new_sector_id = self.allocate_sector(init)?;
